@@ -2,6 +2,38 @@
 """Writes /verif/seeded/README.md from seeded/*/meta.json, result.json and the notes below."""
 import glob, json, os
 NOTES = {
+    'C01_5': 'round 3; caught as the checks stood',
+    'C01_6': 'round 3; missed at first (a publisher never died inside one publish); C01 gained the kill-inside-a-publish enumeration (1..m-1 of the m messages of a frame set delivered, the rest lost with the publisher, restart on the same address) - caught since',
+    'C02_5': 'round 3; missed at first (no consumer ran in low-latency mode); the specification\'s lowlat behaviour is now exercised (model check, replay with publisher kills) and the design mutation ll_prev_stale yields the schedule - caught since',
+    'C02_6': 'round 3; missed at first by C02 (the relay-rejoin amnesia schedule was only replayed by C01); C02 replays it too and judges the id a frame was published under - caught since',
+    'C03_5': 'round 3; missed at first (the simulated network bounded what is queued towards a subscriber by the publisher\'s high-water mark alone); simzmq now models SNDHWM + RCVHWM for the join-with-a-slower-branch scenario (80 frames must arrive complete) - caught since. The same scenario with 700 frames loses frames on the unchanged tree: open finding C03-join-fast-source-runs-ahead. (The demonstration is timing based: it failed once without the change while four seed tests ran concurrently and passes alone.)',
+    'C03_6': 'round 3; missed at first (no relay returned None and then a set without the explicitly subscribed topics); C03 gained Chain3NoneEmpty - caught since',
+    'C04_5': 'round 3; missed at first (every consumer had its own filter id); C04 gained two replicas with one id on one output - caught since',
+    'C04_6': 'round 3; missed at first (only the direct publisher of the stalled consumer was counted, and mq.py read the real wall clock); every producer upstream of the stalled consumer is counted and mq.py\'s clock is virtual - caught since',
+    'C05_5': 'round 3; caught as the checks stood',
+    'C05_6': 'round 3; missed at first (no consumer was attached to one publisher twice); C05 gained DualAttach (model check, replay, differential with a slow consumer) - caught since',
+    'C06_5': 'round 3; missed at first (no restarted filter numbered its own output behind a slow producer); C06 gained EphRelay in the fault enumeration - caught since',
+    'C06_6': 'round 3; missed at first (the required output was the only consumer); C06 gained RequiredTee and counts every publish from the kill on (two in-flight publishes allowed) - caught since',
+    'C07_5': 'round 3; caught as the checks stood', 'C07_6': 'round 3; caught as the checks stood',
+    'C08_5': 'round 3; missed at first (return-vs-raise and the announcement were judged for runs with one reason of ending only); a run that was ending cleanly and then hits an exception in shutdown() is now judged as ending by that error (fini-stage errors: raise, announcement as known before) - caught since',
+    'C08_6': 'round 3; caught as the checks stood',
+    'C18_5': 'round 3; missed at first (the capturing client never failed); new specification spec/life/Emitter.tla with a failing backend, replayed on the real emitter - caught since',
+    'C18_6': 'round 3; missed at first (the telemetry bridge was never driven); Emitter.tla models the bridge\'s export / force_flush (also after the run), replayed through the real OTelLineageExporter - caught since',
+    'C09_5': 'round 3; missed at first (every jpg came from a picture of the declared format; the expected pixels came from the code\'s own decode); some colour-declared frames now carry a single-channel JPEG and the reference decode is independent - caught since',
+    'C09_6': 'round 3; caught as the checks stood', 'C10_5': 'round 3; caught as the checks stood',
+    'C10_6': 'round 3; missed at first (one frame world per case); C10 gained the stream probe (different jpg frames one after the other, blobs freed, earlier pictures kept) - caught since',
+    'C11_5': 'round 3; missed at first (no white space at the inner slashes of an MQTT source path); ConfigGrammar renders it - caught since',
+    'C11_6': 'round 3; missed at first (no pass-through option with a falsy value); the VideoOut pool gained !crf=0 and !no-an - caught since',
+    'C12_5': 'round 3; missed at first (no id source with "?" directly followed by an option); suffixes "?!opt" / "??!opt" added - caught since',
+    'C12_6': 'round 3; caught as the checks stood',
+    'C13_5': 'round 3; first run ended as MACHINERY-FAILURE (the projection of a saved position did not know the special values of seek()); fixed - caught since',
+    'C13_6': 'round 3; missed at first (bin records were bytes only); bin records are now bytes, bytearrays and two-dimensional buffers - caught since',
+    'C14_5': 'round 3; caught as the checks stood', 'C14_6': 'round 3; caught as the checks stood',
+    'C15_5': 'round 3; caught as the checks stood', 'C15_6': 'round 3; caught as the checks stood',
+    'C16_5': 'round 3; missed at first (every configuration file had a safe_metrics list); files with another section only / an empty safe_metrics key added - caught since',
+    'C16_6': 'round 3; missed at first (the lock-down cases ran first in the process); a permissive exporter now exports every name first - caught since',
+    'C17_5': 'round 3; missed at first (chains ran through execute_xforms only); every other chain now runs through Util.setup()/process() with mixed topic scoping - caught since',
+    'C17_6': 'round 3; caught as the checks stood',
     'C09_3': 'round 2 (functions); missed at first (no data string with an unpaired surrogate); FIXED_DATA gained surrogate-escaped strings - caught since',
     'C09_4': 'round 2 (functions); missed at first (no read-only frame derived from a writable buffer that is rewritten afterwards); C09 gained the rocached/poked frame kind (owner.ro, jpg cached, owner buffer re-rendered) - caught since (stale_jpg)',
     'C10_3': 'round 2 (functions); first run ended as MACHINERY-FAILURE (the self-test judged a clean history on the real code); what the monitors say about that history is now merged into the verdicts - caught since',
